@@ -95,7 +95,7 @@ package account
 // fill it from the trie on a miss). The dirty-marking callback of an object is
 // AccountDB.MarkAccountObjectDirty of its database (installed by newAccountObject), trusted as such.
 
-//@ ghost acct (Array Int (Array (Array (_ BitVec 64) (_ BitVec 8)) Int))
+//@ ghost acct (Array Int (Array {common.Address} Int))
 //@ spec macro fn registered(db Int, a common.Address) Int = @select(@select(ghost(acct), db), a)
 
 //@ func AccountDB.getAccountObject
